@@ -36,7 +36,8 @@ for s in sorted(os.listdir(os.path.join(V, "refactors"))):
     r = rr.get(s, {})
     alarms = [p for p in sorted(r) if isinstance(r[p], dict) and r[p].get("exit") == 1]
     unus = [p for p in sorted(r) if isinstance(r[p], dict) and r[p].get("exit") == 2]
-    verdict = "silent (20/20 exit 0)" if r and not alarms and not unus else ("FALSE ALARM " + ",".join(alarms) if alarms else ("unusable " + ",".join(unus) if unus else "?"))
+    nprops = len([p for p in r if isinstance(r[p], dict) and "exit" in r[p]])
+    verdict = ("silent (%d/%d exit 0)" % (nprops, nprops)) if r and not alarms and not unus else ("FALSE ALARM " + ",".join(alarms) if alarms else ("unusable " + ",".join(unus) if unus else "?"))
     summ = str(m.get("summary", "")).replace("|", "/").replace("\n", " ")
     summ = summ if len(summ) < 200 else summ[:197] + "..."
     rows.append("| %s | %s | %s |" % (s, summ, verdict))
